@@ -18,7 +18,8 @@ MANIFEST = dict(
          "polyroots replaced by 'some negative real root of the quartic' and uniqueness of that root proved for the standard "
          "coefficients on [-200,0)), thermistor (Steinhart-Hart, current and voltage-divider excitation, 2/3/4-wire: recovered "
          "resistance equals the sensor resistance, log uninterpreted), strain (7 bridge types, all of G, nu, Rg, Rlead, V0, gain, "
-         "Vex symbolic), polynomial = Horner (<= 4 symbolic coefficients), table = clamped piecewise-linear interpolation.",
+         "Vex symbolic), the same RTD / thermistor / strain obligations with the object built by from_properties at scale index 0 and 2 "
+         "(NI key names written out in the check, decoy values under the other indices), polynomial = Horner (<= 4 symbolic coefficients), table = clamped piecewise-linear interpolation.",
     note="Exact over the reals (the 1e-6 relative tolerance of the statement is implied); float rounding outside. LAPACK root finding "
          "(np.polynomial.polyroots) and np.interp are C-level: replaced by stated stubs. Voltage-excited 2-wire thermistors are "
          "checked with zero lead resistance only (the library does not compensate there; NI's convention is not stated).",
@@ -28,7 +29,8 @@ MANIFEST = dict(
 META = dict(
     level='other',
     functions=['scaling.RtdScaling.scale', 'scaling.RtdScaling._solve_quartic_form', 'scaling.RtdScaling._get_negative_real_root',
-               'scaling._adjust_for_lead_resistance', 'scaling.ThermistorScaling.scale', 'scaling.StrainScaling.scale',
+               'scaling._adjust_for_lead_resistance', 'scaling.RtdScaling.from_properties', 'scaling.ThermistorScaling.from_properties',
+               'scaling.StrainScaling.from_properties', 'scaling.ThermistorScaling.scale', 'scaling.StrainScaling.scale',
                'scaling.PolynomialScaling.scale', 'scaling.TableScaling.__init__', 'scaling.TableScaling.scale'],
     bounds=dict(quick='all parameters symbolic reals under the physical side conditions listed per harness; polynomial degree <= 3; '
                       'tables of 3 points', thorough='same; polynomial degree <= 5, tables of 4 points'),
